@@ -4,6 +4,7 @@
  *   crashtrace -w <watchdir> -o <logfile> log            -- cmd args...
  *   crashtrace -w <watchdir> -o <logfile> kill <k>       -- cmd args...
  *   crashtrace -w <watchdir> -o <logfile> tear <k> <n>   -- cmd args...
+ *   (-S before -w: no seccomp filter; stop at every system call instead of only at the watched ones)
  *
  * Every thread and child process of cmd is traced with ptrace.  The tracer keeps ONE global, ordered list
  * of file-system-mutating system-call ENTRIES whose path (or file descriptor, resolved through
@@ -38,6 +39,11 @@
 #include <sys/wait.h>
 #include <unistd.h>
 #include <linux/ptrace.h>
+#include <linux/audit.h>
+#include <linux/filter.h>
+#include <linux/seccomp.h>
+#include <stddef.h>
+#include <sys/prctl.h>
 
 #ifndef __x86_64__
 #error "crashtrace supports x86_64 only"
@@ -63,6 +69,51 @@ struct thr {
 static struct thr T[MAXT];
 static int nT;
 static pid_t inflight_tid = 0;
+/* With a seccomp filter in the tracee only the watched system calls stop (PTRACE_EVENT_SECCOMP); every
+ * other call runs at full speed.  -S switches the filter off (every call then stops at entry and exit). */
+static int use_seccomp = 1;
+static int resume_req = PTRACE_CONT;
+
+static const int watched_nrs[] = {
+	SYS_open, SYS_creat, SYS_openat,
+#ifdef SYS_openat2
+	SYS_openat2,
+#endif
+	SYS_rename, SYS_renameat,
+#ifdef SYS_renameat2
+	SYS_renameat2,
+#endif
+	SYS_link, SYS_linkat, SYS_symlink, SYS_symlinkat, SYS_unlink, SYS_unlinkat, SYS_mkdir, SYS_mkdirat,
+	SYS_rmdir, SYS_truncate, SYS_chmod, SYS_fchmodat, SYS_write, SYS_pwrite64, SYS_writev, SYS_pwritev,
+#ifdef SYS_pwritev2
+	SYS_pwritev2,
+#endif
+	SYS_ftruncate, SYS_fallocate, SYS_fchmod, SYS_fsync, SYS_fdatasync, SYS_sendfile,
+#ifdef SYS_copy_file_range
+	SYS_copy_file_range,
+#endif
+	SYS_close,
+};
+#define NWATCHED ((int)(sizeof watched_nrs / sizeof watched_nrs[0]))
+
+/* called in the child between fork and exec */
+static int install_filter(void)
+{
+	static struct sock_filter f[NWATCHED + 8];
+	int n = 0;
+	f[n++] = (struct sock_filter)BPF_STMT(BPF_LD | BPF_W | BPF_ABS, offsetof(struct seccomp_data, arch));
+	f[n++] = (struct sock_filter)BPF_JUMP(BPF_JMP | BPF_JEQ | BPF_K, AUDIT_ARCH_X86_64, 1, 0);
+	f[n++] = (struct sock_filter)BPF_STMT(BPF_RET | BPF_K, SECCOMP_RET_ALLOW);
+	f[n++] = (struct sock_filter)BPF_STMT(BPF_LD | BPF_W | BPF_ABS, offsetof(struct seccomp_data, nr));
+	for (int i = 0; i < NWATCHED; i++)
+		f[n++] = (struct sock_filter)BPF_JUMP(BPF_JMP | BPF_JEQ | BPF_K, (unsigned)watched_nrs[i], (unsigned char)(NWATCHED - i), 0);
+	f[n++] = (struct sock_filter)BPF_STMT(BPF_RET | BPF_K, SECCOMP_RET_ALLOW);
+	f[n++] = (struct sock_filter)BPF_STMT(BPF_RET | BPF_K, SECCOMP_RET_TRACE);
+	struct sock_fprog prog = {(unsigned short)n, f};
+	if (prctl(PR_SET_NO_NEW_PRIVS, 1, 0, 0, 0) < 0)
+		return -1;
+	return prctl(PR_SET_SECCOMP, SECCOMP_MODE_FILTER, &prog);
+}
 
 static void die(const char *m)
 {
@@ -390,9 +441,11 @@ static void release_held(void)
 			continue;
 		}
 		/* re-classify now: the fd table may have changed while held */
-		if (!classify(t->tid, si.entry.nr, si.entry.args, &e)) {
+		int w = si.op == PTRACE_SYSCALL_INFO_SECCOMP ? classify(t->tid, si.seccomp.nr, si.seccomp.args, &e)
+							     : classify(t->tid, si.entry.nr, si.entry.args, &e);
+		if (!w) {
 			t->held = 0;
-			ptrace(PTRACE_SYSCALL, t->tid, 0, 0);
+			ptrace(resume_req, t->tid, 0, 0);
 			continue;
 		}
 		admit(t, &e);
@@ -408,6 +461,8 @@ int main(int argc, char **argv)
 			watch = argv[i + 1], i += 2;
 		else if (!strcmp(argv[i], "-o") && i + 1 < argc)
 			logpath = argv[i + 1], i += 2;
+		else if (!strcmp(argv[i], "-S"))
+			use_seccomp = 0, i++;
 		else
 			break;
 	}
@@ -442,19 +497,23 @@ int main(int argc, char **argv)
 		if (ptrace(PTRACE_TRACEME, 0, 0, 0) < 0)
 			_exit(126);
 		raise(SIGSTOP);
+		if (use_seccomp && install_filter() < 0)
+			_exit(125);
 		execvp(argv[i], argv + i);
 		_exit(127);
 	}
+	if (!use_seccomp)
+		resume_req = PTRACE_SYSCALL;
 	int st;
 	if (waitpid(rootpid, &st, __WALL) < 0 || !WIFSTOPPED(st))
 		die("initial wait");
 	long opts = PTRACE_O_TRACESYSGOOD | PTRACE_O_TRACECLONE | PTRACE_O_TRACEFORK | PTRACE_O_TRACEVFORK |
-		    PTRACE_O_TRACEEXEC | PTRACE_O_EXITKILL;
+		    PTRACE_O_TRACEEXEC | PTRACE_O_EXITKILL | PTRACE_O_TRACESECCOMP;
 	if (ptrace(PTRACE_SETOPTIONS, rootpid, 0, opts) < 0)
 		die("SETOPTIONS");
 	get(rootpid)->started = 1;
-	if (ptrace(PTRACE_SYSCALL, rootpid, 0, 0) < 0)
-		die("first PTRACE_SYSCALL");
+	if (ptrace(resume_req, rootpid, 0, 0) < 0)
+		die("first resume");
 
 	int rootstatus = -1;
 	long heldseq = 0;
@@ -485,7 +544,7 @@ int main(int argc, char **argv)
 			memset(&si, 0, sizeof si);
 			if (ptrace(PTRACE_GET_SYSCALL_INFO, tid, sizeof si, &si) <= 0)
 				goto cont; /* thread vanished */
-			if (si.op == PTRACE_SYSCALL_INFO_ENTRY) {
+			if (si.op == PTRACE_SYSCALL_INFO_ENTRY && !use_seccomp) {
 				struct ent e;
 				if (classify(tid, si.entry.nr, si.entry.args, &e)) {
 					if (inflight_tid && inflight_tid != tid) {
@@ -504,11 +563,25 @@ int main(int argc, char **argv)
 						fprintf(logf, "# torn write returned %lld\n", (long long)si.exit.rval);
 						finish_killed("exit-of-torn-write");
 					}
-					if (ptrace(PTRACE_SYSCALL, tid, 0, 0) < 0 && errno != ESRCH)
-						die("PTRACE_SYSCALL");
+					if (ptrace(resume_req, tid, 0, 0) < 0 && errno != ESRCH)
+						die("resume after exit");
 					release_held();
 					continue;
 				}
+			}
+		} else if (sig == SIGTRAP && ev == PTRACE_EVENT_SECCOMP) {
+			struct ptrace_syscall_info si;
+			struct ent e;
+			memset(&si, 0, sizeof si);
+			if (ptrace(PTRACE_GET_SYSCALL_INFO, tid, sizeof si, &si) <= 0)
+				goto cont;
+			if (si.op == PTRACE_SYSCALL_INFO_SECCOMP && classify(tid, si.seccomp.nr, si.seccomp.args, &e)) {
+				if (inflight_tid && inflight_tid != tid) {
+					t->held = (int)++heldseq;
+					continue; /* stays stopped */
+				}
+				admit(t, &e);
+				continue;
 			}
 		} else if (sig == SIGTRAP && ev) {
 			/* clone/fork/vfork/exec event stop: nothing to do, the new task is auto-attached */
@@ -521,8 +594,8 @@ int main(int argc, char **argv)
 		}
 		t->started = 1;
 	cont:
-		if (ptrace(PTRACE_SYSCALL, tid, 0, deliver) < 0 && errno != ESRCH)
-			die("PTRACE_SYSCALL");
+		if (ptrace(resume_req, tid, 0, deliver) < 0 && errno != ESRCH)
+			die("resume");
 	}
 	if (mode) {
 		fprintf(logf, "# end exit=%d entries=%ld (target %ld not reached)\n", rootstatus, counter, target_k);
@@ -533,6 +606,6 @@ int main(int argc, char **argv)
 	fclose(logf);
 	return rootstatus < 0 ? 2 : rootstatus;
 usage:
-	fprintf(stderr, "usage: crashtrace -w <watchdir> -o <logfile> log|kill <k>|tear <k> <bytes> -- cmd args...\n");
+	fprintf(stderr, "usage: crashtrace [-S] -w <watchdir> -o <logfile> log|kill <k>|tear <k> <bytes> -- cmd args...\n");
 	return 2;
 }
